@@ -174,7 +174,7 @@ pub fn read(ctx: &Ctx, op: &Op) -> (String, i64, Value) {
         }));
         return match r {
             Ok(v) => ("ok".into(), 0, v),
-            Err(_) => ("panic".into(), 0, json!({"has": true, "threads": [], "files": [], "leftovers": []})),
+            Err(_) => ("panic".into(), 0, json!({"has": true, "threads": [], "files": [], "leftovers": [], "alone": []})),
         };
     }
     if op.ev == "ConcRun" {
@@ -189,7 +189,7 @@ pub fn read(ctx: &Ctx, op: &Op) -> (String, i64, Value) {
         }));
         return match r {
             Ok(v) => ("ok".into(), 0, v),
-            Err(_) => ("panic".into(), 0, json!({"has": true, "threads": [], "files": [], "leftovers": []})),
+            Err(_) => ("panic".into(), 0, json!({"has": true, "threads": [], "files": [], "leftovers": [], "alone": []})),
         };
     }
     if op.ev == "Query" {
